@@ -47,6 +47,32 @@ type entry struct {
 	f    func(data []byte)
 }
 
+// a chain of nested structs deeper than any depth cut-off a size estimator may use; slices of every level are
+// decoded, outermost first, so that whatever the decoder remembers about a type from one decode is in place for the next
+type (
+	n10 struct{ B byte }
+	n9  struct{ X n10 }
+	n8  struct{ X n9 }
+	n7  struct{ X n8 }
+	n6  struct{ X n7 }
+	n5  struct{ X n6 }
+	n4  struct{ X n5 }
+	n3  struct{ X n4 }
+	n2  struct{ X n3 }
+	n1  struct{ X n2 }
+)
+
+// element types that occupy no bytes on the wire: a count taken from the input then costs no input at all
+type z0 struct{}
+type z1 struct{ hidden int }
+
+func reflectEntry[T any](name string) entry {
+	return entry{"Reader.Read(*[]" + name + ")", func(d []byte) {
+		var target []T
+		messages.NewReader(d).Read(&target)
+	}}
+}
+
 func entries() []entry {
 	codec := vcodec.UserCodec{}
 	var es []entry
@@ -54,6 +80,9 @@ func entries() []entry {
 	es = append(es, entry{"DecodeEnvelopWithRemoting(no codec)", func(d []byte) { serialize.DecodeEnvelopWithRemoting(nil, d) }})
 	es = append(es, entry{"Reader.ReadMessage", func(d []byte) { messages.NewReader(d).ReadMessage(codec) }})
 	es = append(es, entry{"ReadVersionVector", func(d []byte) { cluster.ReadVersionVector(messages.NewReader(d)) }})
+	es = append(es, reflectEntry[n1]("n1"), reflectEntry[n2]("n2"), reflectEntry[n3]("n3"), reflectEntry[n4]("n4"), reflectEntry[n5]("n5"),
+		reflectEntry[n6]("n6"), reflectEntry[n7]("n7"), reflectEntry[n8]("n8"), reflectEntry[n9]("n9"), reflectEntry[n10]("n10"),
+		reflectEntry[string]("string"), reflectEntry[[]byte]("[]byte"), reflectEntry[*n9]("*n9"), reflectEntry[[4]n8]("[4]n8"), reflectEntry[z0]("z0"), reflectEntry[z1]("z1"), reflectEntry[[]z0]("[]z0"))
 	names, _ := messages.VerifRegistry()
 	for _, n := range names {
 		n := n
